@@ -390,3 +390,77 @@ def run_waiters(case):
                 # passes open, so only the model-independent invariants (inside the callbacks and in
                 # RealWaiters.advance) decide; no comparison with the reference log.
     return pure, real
+
+
+# ===================================================================== Hypothesis stateful machine (C09)
+
+def pools_machine(cap):
+    """RuleBasedStateMachine over the real pools + reference model. Arguments of releases are drawn FROM THE CURRENT
+    STATE (amounts up to what a reservation holds), which plain operation lists cannot do."""
+    from hypothesis import strategies as st
+    from hypothesis.stateful import RuleBasedStateMachine, rule, precondition, invariant, initialize
+
+    names = st.sampled_from(['a', 'a', 'b', 'b', 'c', 'new', 'zzz'])
+
+    class PoolsMachine(RuleBasedStateMachine):
+        def __init__(self):
+            super().__init__()
+            cap['ops'] = []
+            self.p = Pools()
+            self.w = installed(Weights('const'))
+            self.w.__enter__()
+
+        def do(self, op):
+            cap['ops'].append(op)
+            self.p.step(op)
+
+        @initialize(a=st.sampled_from([1, 2, 3, 5]), b=st.sampled_from([0, 1, 2]))
+        def start(self, a, b):
+            self.do(['add', 'a', a])
+            if b:
+                self.do(['add', 'b', b])
+
+        @rule(n=names, v=st.sampled_from([-3, -2, -1, -1, 1, 1, 2, 3]))
+        def add(self, n, v):
+            self.do(['add', n, v])
+
+        @rule(req=st.dictionaries(names, st.sampled_from([-1, 0, 1, 1, 1, 2, 3]), min_size=1, max_size=3))
+        def reserve(self, req):
+            self.do(['reserve', req])
+
+        @precondition(lambda self: any(self.p.hold))
+        @rule(data=st.data())
+        def release_part_of_what_is_held(self, data):
+            idx = data.draw(st.sampled_from([i for i, h in enumerate(self.p.hold) if h]))
+            h = self.p.hold[idx]
+            what = {n: data.draw(st.integers(0, v)) for n, v in h.items() if data.draw(st.booleans())}
+            if what:
+                self.do(['release', idx, what])
+
+        @precondition(lambda self: bool(self.p.res))
+        @rule(i=st.integers(0, 7), what=st.one_of(st.none(), st.dictionaries(names, st.sampled_from([-1, 0, 1, 2, 5]),
+                                                                             min_size=1, max_size=2)))
+        def release_anything(self, i, what):
+            self.do(['release', i, what])
+
+        @precondition(lambda self: len(self.p.res) >= 2)
+        @rule(i=st.integers(0, 7), j=st.integers(0, 7))
+        def merge(self, i, j):
+            self.do(['merge', i, j])
+
+        @invariant()
+        def usage_never_negative(self):
+            for n in NAMES:
+                if self.p.rm.get_resource_usage(n) < 0:
+                    raise Violation('C09.usage-negative', f'usage of {n} is {self.p.rm.get_resource_usage(n)}')
+
+        def teardown(self):
+            self.w.__exit__(None, None, None)
+            c = self.p.c
+            classes = [k for k in ('raised', 'merges', 'partial_releases', 'over_capacity_states', 'invalid_rejected',
+                                   'reserve_refused') if c[k]]
+            cap['done']({'ops': list(cap['ops'])},
+                        {'nontrivial': c['multi_failed_after_success'] > 0, 'classes': ['machine'] + classes,
+                         'counters': {k: c[k] for k in ('ops', 'raised', 'reserve_ok', 'reserve_refused', 'merges')}})
+
+    return PoolsMachine
